@@ -7,6 +7,10 @@ From Grex Require Import Base.Str Model.Config Model.Cluster Model.Dfa Model.Exp
 From Grex Require Import Proofs.Lang Proofs.TrieLang Proofs.QuotientLang Proofs.MinimizeLang
   Proofs.HopcroftCoarsest Proofs.PropsGlue.
 From Grex Require Proofs.ElimLang.
+From Grex Require Import Model.Print Engine.Syntax Engine.Parse Engine.Sem Engine.ExecCi.
+From Grex Require Import Proofs.FoldTables Proofs.EngineDen Proofs.PrintParseNum Proofs.PrintParseDefs
+  Proofs.PrintParseXTok Proofs.PrintParse Proofs.PrintParseX Proofs.ExecCiSound Proofs.ScalarHay
+  Proofs.Spec Proofs.PipelinePrintable.
 
 (* trie: exactly the cluster languages when no edge is merged ... *)
 Theorem C16_trie : forall (lit cls : cp -> cp -> Prop) (cs : list cluster) d,
@@ -84,6 +88,102 @@ Theorem C16_min_checkb : forall d, wf_dfa d -> min_checkb d = true ->
     (forall w, Lw_from d i w <-> Lw_from d j w) -> i = j.
 Proof. exact min_checkb_spec. Qed.
 
+(* ---------- the print stage, and the engine model ---------- *)
+
+(* printing preserves the language: the printed pattern of a printable expression is accepted
+   by the model of the regex crate's parser (Engine/Parse.v) and the parsed AST matches
+   (Engine/Sem.v) exactly the language of the expression.  printable c: f_colour c = false /\
+   f_sur c = false; wf_print e := wf_print_gen False e: the expression is printable and no
+   class contains both U+D7FF and U+E000 (C16_pipeline_printable_nogap); ws_ok is_ws: the
+   parser's whitespace test rejects 0-9 , } *)
+Theorem C16_print : forall (lit cls : cp -> cp -> Prop) isd is_ws c e,
+  printable c -> f_verbose c = false -> wf_print e -> ws_ok is_ws ->
+  exists fl r, parse is_ws (regexp_str isd c e) = Some (fl, r)
+    /\ fl_i fl = f_ci c /\ fl_x fl = false
+    /\ (forall s, L_rast lit cls r s <-> L_expr lit cls e s).
+Proof. exact print_parse_lang. Qed.
+
+(* verbose mode, under the x flag; ws_x is_ws: is_ws is the engine's whitespace table.  gap:
+   whether a class of e may contain both U+D7FF and U+E000 (its printed range then contains
+   the surrogates, which must denote nothing) *)
+Theorem C16_print_verbose : forall (lit cls : cp -> cp -> Prop) isd is_ws c (gap : Prop) e,
+  printable c -> f_verbose c = true -> wf_print_gen gap e -> ws_x is_ws ->
+  (gap -> forall c0 x, surrogate c0 -> ~ lit c0 x) ->
+  exists fl r, parse is_ws (regexp_str isd c e) = Some (fl, r)
+    /\ fl_i fl = f_ci c /\ fl_x fl = true
+    /\ (forall s, L_rast lit cls r s <-> L_expr lit cls e s).
+Proof. exact print_parse_lang_verbose. Qed.
+
+(* the AST that the printed pattern parses to is top_rast c e (Proofs/PrintParseDefs.v), in
+   both modes; gap: whether a class of e may contain both U+D7FF and U+E000 *)
+Theorem C16_print_ast : forall isd is_ws c,
+  printable c -> f_verbose c = false -> ws_ok is_ws ->
+  forall (gap : Prop) e, wf_print_gen gap e ->
+  parse is_ws (regexp_str isd c e) = Some (mkF (f_ci c) false, top_rast c e).
+Proof. exact print_parse. Qed.
+
+Theorem C16_print_ast_verbose : forall isd is_ws c (gap : Prop) e,
+  printable c -> f_verbose c = true -> wf_print_gen gap e -> ws_x is_ws ->
+  parse is_ws (regexp_str isd c e) = Some (mkF (f_ci c) true, top_rast c e).
+Proof. exact print_parse_verbose. Qed.
+
+(* ... and it has the language of the expression; when a class may straddle the surrogate gap
+   its printed range contains the surrogates, which must then denote nothing *)
+Theorem C16_print_ast_lang : forall c, printable c ->
+  forall (gap : Prop) (lit cls : cp -> cp -> Prop),
+  (gap -> forall c0 x, surrogate c0 -> ~ lit c0 x) ->
+  forall e, wf_print_gen gap e ->
+  forall s, L_rast lit cls (top_rast c e) s <-> L_expr lit cls e s.
+Proof. exact top_rast_lang. Qed.
+
+(* the expressions of the pipeline are printable, for scalar-valued test cases *)
+Theorem C16_pipeline_printable : forall c db sc ws e,
+  ws <> [] ->
+  Forall (Forall scalar) ws ->
+  (forall s, In s ws -> Forall scalar (lower' db s)) ->
+  oracle_ok db (normalise c db ws) ->
+  Pipeline.final_expr c (grapheme_clusters c db (normalise c db ws)) sc = Some e ->
+  wf_print_gen True e.
+Proof. exact final_expr_wf_print. Qed.
+
+(* ... and no class straddles the surrogate gap when U+D7FF or U+E000 occurs in no
+   normalised test case *)
+Theorem C16_pipeline_printable_nogap : forall c db sc ws e,
+  ws <> [] ->
+  Forall (Forall scalar) ws ->
+  (forall s, In s ws -> Forall scalar (lower' db s)) ->
+  oracle_ok db (normalise c db ws) ->
+  (Forall (fun s => ~ In 55295%N s) (normalise c db ws)
+   \/ Forall (fun s => ~ In 57344%N s) (normalise c db ws)) ->
+  Pipeline.final_expr c (grapheme_clusters c db (normalise c db ws)) sc = Some e ->
+  wf_print e.
+Proof. exact final_expr_wf_print_inputs. Qed.
+
+(* the whitespace table of the model satisfies ws_x *)
+Theorem C16_ws_x_std : ws_x VerboseWs.is_ws.
+Proof. exact ws_x_std. Qed.
+
+(* the executable matcher that is extracted and run against the real regex crate
+   (Engine/ExecCi.v) decides the matching relation: ci is the i flag of the parsed pattern;
+   lit_engine ci is equality / simple case folding; ExecCi.cls_engine the engine's Perl
+   classes *)
+Theorem C16_engine_exec : forall ci h r,
+  matches_whole_engine ci h r = true <-> L_rast (lit_engine ci) ExecCi.cls_engine r h.
+Proof. exact matches_whole_engine_spec. Qed.
+
+(* ... that is, at the denotations used by the property theorems *)
+Theorem C16_engine_exec_den : forall ci h r,
+  matches_whole_engine ci h r = true
+  <-> L_rast (if ci then lit_ci else lit_cs) EngineDen.cls_engine r h.
+Proof. exact matches_whole_engine_den. Qed.
+
+(* the search of the extracted matcher: the least start with a match, and ALL ends from it *)
+Theorem C16_engine_find : forall ci h r i js,
+  find_leftmost_engine ci h r = Some (i, js) ->
+  i <= length h /\ js <> [] /\ NoDup js
+  /\ (forall j, In j js <-> m (lit_engine ci) ExecCi.cls_engine h r i j).
+Proof. exact find_leftmost_engine_ends. Qed.
+
 Print Assumptions C16_trie.
 Print Assumptions C16_trie_sup.
 Print Assumptions C16_min_lang.
@@ -92,3 +192,14 @@ Print Assumptions C16_elim.
 Print Assumptions C16_elim_gen.
 Print Assumptions C16_checker_sound.
 Print Assumptions C16_min_checkb.
+Print Assumptions C16_print.
+Print Assumptions C16_print_verbose.
+Print Assumptions C16_ws_x_std.
+Print Assumptions C16_engine_exec.
+Print Assumptions C16_engine_exec_den.
+Print Assumptions C16_engine_find.
+Print Assumptions C16_print_ast.
+Print Assumptions C16_print_ast_verbose.
+Print Assumptions C16_print_ast_lang.
+Print Assumptions C16_pipeline_printable.
+Print Assumptions C16_pipeline_printable_nogap.
